@@ -81,6 +81,8 @@ def feature_tag(case):
         t.append("TPL0")
     if c.get("enc_mode", 8) <= 4:
         t.append("SB128")
+    if c.get("over_bndry_blk", 1) == 0:
+        t.append("OBB0")
     if c.get("hierarchical_levels", 4) == 5:
         t.append("HL5")
     if c.get("encoder_bit_depth", 8) == 10:
